@@ -256,6 +256,8 @@ prop("C11", "exploration",
      "caller would. Inputs declaring a compressed block > 64 MiB are skipped and counted (resource exhaustion is "
      "outside the statement).",
      [
+         {"test": "TestC11_ClientDecoders", "quick": {"checks": 3000, "timeout": 300},
+          "thorough": {"checks": 100000, "shards": 16, "timeout": 1500}},
          {"test": "TestC11_Malformed", "quick": {"checks": 12000, "timeout": 400},
           "thorough": {"checks": 100000, "shards": 16, "timeout": 3000}},
          {"fuzz": "FuzzC11Receive", "thorough": {"fuzztime": "120s", "workers": 8, "timeout": 500}},
